@@ -231,7 +231,12 @@ class Burst(BytesInterface):
                 data_bits_interleaved[:98]
                 + slot_bits[:10]
                 + (
-                    self.emb.as_bits()
+                    # EMB halves go around the 32 embedded (reverse channel) bits, 48 bits as with a sync pattern
+                    (
+                        self.emb.as_bits()[:8]
+                        + self.embedded_signalling_bits
+                        + self.emb.as_bits()[8:]
+                    )
                     if self.has_emb
                     else self.sync_or_embedded_signalling.as_bits()
                 )
